@@ -554,6 +554,44 @@ def run(ctx):
             if supports_batching(v) is not True:
                 ctx.violation("no_version_must_batch", f"supports_batching({v!r}) is not True", {"version": v})
 
+    # ---- A2: strings that are not plain ASCII dates: wherever the library's OWN format validator calls one well-formed,
+    # its decision and its ordering have to agree on it as well (and the string, handed to a BatchProcessor, likewise)
+    if ctx.shard[0] == 0:
+        def _digits(text, zero):
+            return "".join(chr(ord(zero) + int(ch)) if ch.isdigit() else ch for ch in text)
+        odd = []
+        for base_v in ("2024-11-05", "2025-03-26", "2025-06-17", "2025-06-18", "2025-06-19", "2026-01-01", "1999-12-31"):
+            for zero in ("\u0660", "\u06f0", "\u0966", "\uff10", "\U0001d7ce"):   # Arabic-Indic, Persian, Devanagari, fullwidth, math bold
+                odd.append(_digits(base_v, zero))
+                odd.append(base_v[:5] + _digits(base_v[5:], zero))
+                odd.append(_digits(base_v[:4], zero) + base_v[4:])
+            odd += [base_v + "\n", "\n" + base_v, base_v + " ", " " + base_v, base_v + "\r\n", base_v + "\u2028", base_v + "\x00",
+                    base_v.replace("-", "\u2010"), base_v.replace("-", "\u2212"), "+" + base_v[1:], base_v[:5] + "+" + base_v[6:],
+                    base_v[:8] + "-" + base_v[9:], base_v.replace("-", "_"), base_v + "-00", "0" + base_v, base_v[1:]]
+        called_wellformed = 0
+        for v in odd:
+            try:
+                wf = ProtocolVersion.validate_format(v)
+            except Exception as e:  # noqa
+                ctx.violation("format_validator_raised", f"validate_format({v!r}) raised {e!r}", {"version": v})
+                continue
+            ctx.count("odd_version_strings")
+            if not wf:
+                continue
+            called_wellformed += 1
+            try:
+                got, want = supports_batching(v), ProtocolVersion.compare(v, CUTOFF) < 0
+            except Exception as e:  # noqa
+                ctx.violation("decision_raised", f"{v!r} passes validate_format() but the decision/ordering raised {e!r}", {"version": v})
+                continue
+            if got is not want or BatchProcessor(v).batching_enabled is not want:
+                ctx.violation("decision_disagrees_with_ordering",
+                              f"{v!r} passes the library's validate_format(); supports_batching={got!r}, BatchProcessor="
+                              f"{BatchProcessor(v).batching_enabled!r}, but compare(v,{CUTOFF})<0 is {want}", {"version": v})
+        ctx.count("odd_strings_the_library_calls_wellformed", called_wellformed)
+        ctx.record({"odd_versions": len(odd)}, shape=called_wellformed, cls="odd_version_strings", nontrivial=True,
+                   sample={"strings": len(odd), "called_wellformed_by_library": called_wellformed})
+
     # ---- B: transport ------------------------------------------------------
     for case in transport_cases(ctx):
         if not ctx.mine():
